@@ -14,6 +14,14 @@ static void srt_matrix(uint64_t k, int n, pixman_transform_t *m)
     m->matrix[0][0] = e[0]; m->matrix[0][1] = e[1]; m->matrix[0][2] = e[2];
     m->matrix[1][0] = e[3]; m->matrix[1][1] = e[4]; m->matrix[1][2] = e[1];
     m->matrix[2][0] = e[3]; m->matrix[2][1] = 0;    m->matrix[2][2] = 0x10000;
+    /* a sixth digit (0 for indices below n^5) selects other last rows: affine matrices whose homogeneous weight is not 1, and m21 != 0 */
+    switch (k % 5) {
+    case 1: m->matrix[2][0] = 0; m->matrix[2][2] = 0x20000; break;
+    case 2: m->matrix[2][0] = 0; m->matrix[2][2] = 0x8000; break;
+    case 3: m->matrix[2][0] = 0; m->matrix[2][2] = -0x10000; break;
+    case 4: m->matrix[2][0] = 0; m->matrix[2][1] = e[3]; m->matrix[2][2] = 0x18000; break;
+    default: break;
+    }
 }
 static void to64(const pixman_transform_t *m, int64_t o[3][3]) { for (int i = 0; i < 3; i++) for (int j = 0; j < 3; j++) o[i][j] = m->matrix[i][j]; }
 static void transpose(const pixman_transform_t *m, pixman_transform_t *o) { for (int i = 0; i < 3; i++) for (int j = 0; j < 3; j++) o->matrix[i][j] = m->matrix[j][i]; }
@@ -442,7 +450,7 @@ static void c11_run_ops(int th)
 {
     static srt_ctx sc; sc.nm = th ? 5 : 3;
     uint64_t nm = 1; for (int i = 0; i < 5; i++) nm *= sc.nm;
-    vf_space_run("scale-rotate-translate", nm * 9, srt_block, &sc);
+    vf_space_run("scale-rotate-translate", nm * 5 * 9, srt_block, &sc);
 
     static bnd_ctx bc; bc.nbox = th ? 400 : 100;
     vf_space_run("bounds", 5 * 5 * 5 * 5 * 5 * 5 * 4, bounds_block, &bc);
